@@ -103,7 +103,10 @@ pub fn expr_to_source(spanned_expr: &SpannedExpr) -> String {
                     result.push_str(&format!("\n  {}", comment));
                 }
                 // Expression
-                result.push_str(&format!("\n  {}", expr_to_source(&stmt.node)));
+                result.push_str(&format!(
+                    "\n  {}",
+                    crate::formatter::protect_statement_start(expr_to_source(&stmt.node))
+                ));
                 // Trailing comment
                 if let Some(trailing) = &stmt.trailing {
                     result.push_str(&format!("  {}", trailing));
@@ -481,7 +484,9 @@ pub fn expr_to_source_with_scope(
                 // Expression
                 result.push_str(&format!(
                     "\n  {}",
-                    expr_to_source_with_scope(&stmt.node, scope)
+                    crate::formatter::protect_statement_start(expr_to_source_with_scope(
+                        &stmt.node, scope
+                    ))
                 ));
                 // Trailing comment
                 if let Some(trailing) = &stmt.trailing {
